@@ -27,6 +27,10 @@ def maskPix (box : Option (List (α × α))) (withBB : Bool) (fill : α) (valid 
   | true, some b => if valid && !(inBox b pix) then pix.map (fun _ => fill) else pix
   | _, _ => pix
 
+/-- the same for a batch: one (valid, solution) row per world point, each masked on its own -/
+def maskRows (box : Option (List (α × α))) (withBB : Bool) (fill : α) (rows : List (Bool × List α)) : List (List α) :=
+  rows.map (fun r => maskPix box withBB fill r.1 r.2)
+
 /-- `WCS.invert` given the raw solution of the chosen path -/
 def invert (analyticMasks : Bool) (path : Path) (box : Option (List (α × α))) (withBB : Bool) (fill : α)
     (valid : Bool) (pix : List α) : List α :=
